@@ -46,8 +46,10 @@ pub struct Outcome {
     pub violation: Option<Violation>,
     /// harness problem (timeout, spawn failure): never a violation
     pub inconclusive: Option<String>,
-    /// observation log for differential relations
+    /// observation log for differential relations (non-consuming reads left out)
     pub obs: Vec<String>,
+    /// every step with its full response (backend differential)
+    pub full_obs: Vec<String>,
     pub n_steps: usize,
 }
 
@@ -390,6 +392,9 @@ impl Run {
                 if *budget == 0 {
                     fs.push("budget_zero");
                 }
+                if !*ck && c > 0 && tm.entry_block.get(c - 1).is_some() && (tm.entry_block.get(c).map(|b| tm.entry_block[c - 1] != *b).unwrap_or(tm.rotations > 0 && avail == 0)) {
+                    fs.push("peek_at_block_end");
+                }
                 for f in fs {
                     self.feat(f);
                 }
@@ -434,6 +439,13 @@ impl Run {
                 if let Resp::Died(m) = &resp {
                     self.child = None;
                     return viol(Oracle::Crash, format!("process died during {:?}: {}", op, m));
+                }
+                {
+                    let shown = match &resp {
+                        Resp::Err { kind, .. } => format!("Err({})", kind),
+                        other => format!("{:?}", other),
+                    };
+                    self.out.full_obs.push(format!("{:?} => {}", op, shown));
                 }
                 let is_peek_like = matches!(op, Op::ReadNext { ck: false, .. } | Op::BatchRead { ck: false, .. } | Op::BatchRead { off: Some(_), .. });
                 if !is_peek_like {
@@ -829,8 +841,13 @@ impl Run {
         if self.opts.final_obs {
             if let Some(c) = self.child.as_mut() {
                 if let Resp::Ls(v) = c.call(&Op::Ls) {
-                    let files = v.iter().filter(|(_, _, d)| !d).count();
-                    self.out.obs.push(format!("files={}", files));
+                    // WAL files only: cursor/marker files (and their .tmp stages) are written
+                    // asynchronously and their presence at this instant is a matter of timing
+                    let files = v
+                        .iter()
+                        .filter(|(n, _, d)| !d && n.rsplit('/').next().map(|b| !b.is_empty() && b.bytes().all(|c| c.is_ascii_digit())).unwrap_or(false))
+                        .count();
+                    self.out.obs.push(format!("wal_files={}", files));
                 }
                 let fs = c.call(&Op::FileStates);
                 if let Resp::FileStates(v) = fs {
